@@ -237,8 +237,26 @@ def run(ctx):
 
 def replay(ctx, path):
     case = json.load(open(pathlib.Path(path) / 'replay.json'))['case']
-    s, B = case['scenario'], case['B']
     wd = str(ctx.tmpdir('c13_'))
+    if 'scenario' not in case or 'B' not in case:
+        # cases of the file-level / large parts: re-run that part of the check
+        import random
+        from harness import sparsefiles
+        ctx.count(case)
+        if 'parallel_huge' in case:
+            A_, B_, P_, wdata, sd = case['parallel_huge']
+            ok, err, nnz = sparsefiles._parallel_huge_case((A_, B_, P_, wdata, sd, wd))
+            if not ok:
+                ctx.report('transpose:parallel-large:wrong-result', f'{A_}x{B_}, {P_} workers: {err}', case)
+        elif 'parallel_large' in case:
+            A_, B_, P_, sd = case['parallel_large']
+            ok, err = sparsefiles._parallel_large_case((A_, B_, P_, 0.4, sd, wd))
+            if not ok:
+                ctx.report('transpose:parallel-large:wrong-result', f'{A_}x{B_}, {P_} workers: {err}', case)
+        else:
+            sparsefiles.run_c13(ctx, ctx.tier == 'quick', random.Random(ctx.seed + 13), wd)
+        return
+    s, B = case['scenario'], case['B']
     if case.get('parallel'):
         bad, n = _parallel_case((s, B, (1, 2, 3), wd))
     else:
